@@ -275,8 +275,14 @@ def drive(odfdo, A, spec, pool):
                     hint = 'shadowed'
             steps.append((si, dict(kind='insert', pre=pre, style=style_abs, name_arg=A.name(op[3]) if op[3] else None,
                                    automatic=kw['automatic'], default=kw['default'], impl=impl, found=found, hint=hint)))
+        elif name == 'raw':
+            root = A.roots(doc)[op[1] // 4]
+            c = root.find(OF + KINDS[op[1] % 4])
+            c.append(etree.fromstring(style_xml(t, op[2])))
         elif name == 'merge':
             other = odfdo.Document(op[1])
+            for slot, s in (op[3] if len(op) > 3 else []):
+                A.roots(other)[slot // 4].find(OF + KINDS[slot % 4]).append(etree.fromstring(style_xml(t, s)))
             for s, mode in op[2]:
                 try: other.insert_style(odfdo.Element.from_tag(style_xml(t, s)), automatic=mode == 'automatic', default=mode == 'default')
                 except Exception: pass
@@ -486,17 +492,28 @@ def gen_cases(tier, rng, t, templates, samples, names_by_doc):
                     cases.append(dict(doc=tpl, ops=[['insert', s, mode, None], ['insert', dict(s, variant=2), mode, None], ['reload']], family='systematic'))
     nsys = len(cases)
     # (b) gaps in the generated names
-    for gap in ([1, 3], [7], [2, 2], ['007'], ['-4'], ['x'], [1, 2, 3, 10]):
+    for gap in ([1, 3], [7], [2, 2], ['007'], ['-4'], ['x'], [1, 2, 3, 10], [3, 1, 2], [2, 1], [5, 4, 1]):
         ops = [['insert', dict(family='paragraph', name='odfdo_auto_%s' % g, variant=i, how='xml'), ['automatic', 'common'][i % 2], None] for i, g in enumerate(gap)]
         ops += [['insert', dict(family='paragraph', name=None, variant=5, how='xml'), 'automatic', None]] * 2 + [['reload']]
         cases.append(dict(doc='text', ops=ops, family='auto-name-gaps'))
+    # (b') styles of every standard family sitting in office:automatic-styles of styles.xml (as header / footer content
+    #      produces them), on both sides of a merge and under a later insertion
+    for fam in t['STD']:
+        raw = dict(family=fam, name='R1', variant=3, how='xml')
+        cases.append(dict(doc='text', ops=[['raw', 5, raw], ['merge', 'text', [], [[5, dict(raw, variant=4)]]], ['reload']], family='styles-xml-automatic'))
+    # (b'') set_table_displayed when ta_N names are already taken in styles.xml / content.xml, with and without a table style
+    for src in ['spreadsheet'] + [x for x in samples if x.endswith('.ods') or x.endswith('table.odt')]:
+        for taken in (['ta_0'], ['ta_0', 'ta_1'], ['ta_1']):
+            for mode in ('common', 'automatic'):
+                ops = [['insert', dict(family=('table-cell', 'table')[i % 2], name=nm, variant=i, how='xml'), mode, None] for i, nm in enumerate(taken)]
+                cases.append(dict(doc=src, ops=ops + [['table', 0, False], ['table', 0, True], ['table', 1, False], ['reload']], family='table-names-taken'))
     # (c) every document merged into a template of its kind and into itself
     for s in templates + samples:
         cases.append(dict(doc='text', ops=[['merge', s, []], ['reload']], family='merge-all'))
         cases.append(dict(doc=s, ops=[['merge', s, []]], family='merge-self'))
         cases.append(dict(doc=s, ops=[['pagebreak'], ['table', 0, False], ['delete'], ['reload']], family='ops-all-docs'))
     # (d) random histories
-    for _ in range(350 if tier == 'quick' else 6000):
+    for _ in range(260 if tier == 'quick' else 6000):
         cases.append(gen_history(rng, t, templates, samples, names_by_doc))
     return cases, nsys
 
